@@ -144,7 +144,7 @@ type c12op struct {
 	Names []string `json:"names,omitempty"`
 }
 
-var c12kinds = []string{"NewURLFromRaw", "NewRequest", "UnmarshalDocument", "UnmarshalPartialResource", "New+Set", "Types[i].New", "MarshalDocument", "GetType", "HasType", "Check", "Rels"}
+var c12kinds = []string{"NewURLFromRaw", "NewRequest", "UnmarshalDocument", "UnmarshalPartialResource", "New+Set", "Types[i].New", "MarshalDocument", "GetType", "HasType", "Check", "Rels", "RejectedBody"}
 
 // exec runs one op against the shared schema and returns a result fingerprint.
 func (o *c12op) exec(s *SchemaSpec, schema *jsonapi.Schema) string {
@@ -209,6 +209,27 @@ func (o *c12op) exec2(s *SchemaSpec, schema *jsonapi.Schema) (string, func() str
 			return "err", nil
 		}
 		again := func() string { return resFingerprint(res) }
+		return again(), again
+	case "RejectedBody":
+		// a body with exactly one fault: the error object that comes back belongs to the caller like any result
+		_, err := jsonapi.UnmarshalDocument([]byte(o.Body), schema)
+		if err == nil {
+			return "accepted", nil
+		}
+		again := func() string {
+			var sb strings.Builder
+			fmt.Fprintf(&sb, "%T|%s", err, err.Error())
+			if e, ok := err.(jsonapi.Error); ok {
+				fmt.Fprintf(&sb, "|%s|%s|%s|%s", e.Status, e.Code, e.Title, e.Detail)
+				for _, k := range sortedKeys(e.Meta) {
+					fmt.Fprintf(&sb, "|meta.%s=%v", k, e.Meta[k])
+				}
+				for _, k := range sortedKeys(e.Source) {
+					fmt.Fprintf(&sb, "|source.%s=%v", k, e.Source[k])
+				}
+			}
+			return sb.String()
+		}
 		return again(), again
 	case "NewURLFromRaw":
 		u, err := jsonapi.NewURLFromRaw(schema, o.Raw)
@@ -399,6 +420,12 @@ func (m c12) genOps(r *RNG, s *SchemaSpec, n int) []c12op {
 				body = `{"data":` + body + `,"included":[` + body + `]}`
 			}
 			o.Body = body
+		case "RejectedBody":
+			field, val := fmt.Sprintf("zz-unknown-%d", i), fmt.Sprintf(`"op-%d-%d"`, i, r.Intn(1000))
+			if len(t.Attrs) > 0 {
+				field, val = t.Attrs[r.Intn(len(t.Attrs))].Name, fmt.Sprintf(`{"bad":[%d]}`, r.Intn(1000))
+			}
+			o.Body = fmt.Sprintf(`{"data":{"type":%q,"id":"r%d","attributes":{%q:%s}}}`, t.Name, i, field, val)
 		case "New+Set", "Types[i].New":
 			o.Type = t.Name
 			o.Res = genResource(r, t, genID(r))
